@@ -198,9 +198,10 @@ def hlBuf (d : Bytes) (b e : Nat) : List Op :=
 def print_fixedstruct_ (m : BufMsg) : List Op := [.wr m.data]
 def print_fixedstruct_prependdate (d : Bytes) (m : BufMsg) : List Op := [.wr d, .wr m.data]
 def print_fixedstruct_prependfile (f : Bytes) (m : BufMsg) : List Op := [.wr f, .wr m.data]
-/-- as coded: the datetime is written BEFORE the file name in this one variant -/
+/-- file-name field, then datetime field, then the record — as in the colour variant and every
+other message kind -/
 def print_fixedstruct_prependfile_prependdate (f d : Bytes) (m : BufMsg) : List Op :=
-  [.wr d, .wr f, .wr m.data]
+  [.wr f, .wr d, .wr m.data]
 def print_fixedstruct_color (m : BufMsg) : List Op :=
   hlBuf m.data m.beg m.fin ++ [.setc .dflt]
 def print_fixedstruct_prependdate_color (d : Bytes) (m : BufMsg) : List Op :=
